@@ -14,7 +14,7 @@ RULE = ('byte strings as messages and as files: well-formed messages (packaged a
         'truncate/insert/delete/bit-flip mutations; random bytes; VBS/IPM files built from those records with mutated length '
         'prefixes, truncation and block damage; CLI tool runs on malformed files; every case under a watchdog; '
         'non-trivial = distinct input that gets past the header checks (outcome is a dict or a data error raised after the bitmap was read)')
-CALL_VARIANTS = True     # bytearray / memoryview messages and earlier failing calls around the harness's loads / dumps calls (worker.install_call_variants)
+CALL_VARIANTS = True     # bytearray messages, positional arguments and earlier failing calls around the harness's loads / dumps calls (worker.install_call_variants)
 EXHAUSTIVE = {}
 ASSUMPTIONS = ['strptime / re / Decimal are total and fail only with the exception classes the code catches (oracles)',
                'memory exhaustion and interpreter limits are outside the model']
